@@ -507,6 +507,8 @@ class SymArray(_nd):
     def __setitem__(self, idx, val):
         if rd(self) != object and has_sym(val):
             k = rd(self).kind
+            if isinstance(val, (list, tuple)):
+                val = _np.array(_strip_deep(val), dtype=object)
             if k == "b":
                 val = concretize_bools(val) if isinstance(val, _nd) else bool(val)
             elif k in "iu":
@@ -839,7 +841,7 @@ def sym_array_function(func, types_, args, kwargs):
 
 
 _NATIVE_OK = {
-    "concatenate", "stack", "vstack", "hstack", "column_stack", "dstack", "dot", "cross", "tile", "repeat", "reshape", "transpose",
+    "concatenate", "stack", "vstack", "hstack", "column_stack", "dstack", "dot", "cross", "tile", "reshape", "transpose",
     "roll", "take", "diff", "cumsum", "append", "insert", "delete", "flip", "fliplr", "flipud", "ravel", "squeeze", "expand_dims",
     "moveaxis", "swapaxes", "atleast_1d", "atleast_2d", "broadcast_to", "outer", "inner", "matmul", "tensordot", "trace", "diag",
     "diagonal", "copy", "split", "array_split", "hsplit", "vsplit", "take_along_axis", "triu", "tril", "kron", "block", "pad",
@@ -1267,6 +1269,18 @@ def f_unique(ar, return_index=False, return_inverse=False, return_counts=False, 
         idx = _np.concatenate(_np.nonzero(mask) + ([n],))
         res.append(_np.diff(idx))
     return res[0] if len(res) == 1 else tuple(res)
+
+
+@implements("repeat")
+def f_repeat(a, repeats, axis=None):
+    if isinstance(repeats, _nd) and rd(repeats) == object:
+        repeats = concretize_ints(repeats)
+    elif isinstance(repeats, Sym):
+        repeats = int(repeats)
+    elif isinstance(repeats, (list, tuple)) and has_sym(repeats):
+        repeats = concretize_ints(_np.array(repeats, dtype=object))
+    r = _np.repeat(base(a) if isinstance(a, _nd) else (_np.array(_strip_deep(a), dtype=object) if has_sym(a) else a), repeats, axis=axis)
+    return set_sd(wrap(r), sd_of(a) if isinstance(a, _nd) else None) if rd(r) == object else r
 
 
 @implements("bincount")
